@@ -125,7 +125,10 @@ def check_case(ctx, case):
     label_taxon = dict((t.label, t) for t in ns)
     Ktaxa = [label_taxon[l] for l in sorted(K)]
     Ctaxa = [label_taxon[l] for l in sorted(comp)]
-    lengths_ok = src.all_lengths_present() or src.all_lengths_absent()
+    # partially missing lengths: unifurcation suppression hands a length down to a length-less child (None counts as
+    # 0) in both the in-place and the extraction code, which is what RefTree.restrict models, so lengths are compared
+    # on every pattern (the basal-collapse path, which treats None differently, is compared as unrooted paths below)
+    lengths_ok = True
     scale = src.total_length()
     key = "C08." + variant
     tag = "%s su=%r ub=%r rooted=%r K=%s" % (variant, su, ub, rooted_flag, sorted(K))
